@@ -299,6 +299,7 @@ def setVerdict (impl : Option (List String)) (c : Ctx) (before after : W F) (upd
 def excStr : Exc → String
   | .constraint => "exc:constraint"
   | .notfound => "exc:notfound"
+  | .ub => "exc:ub"
 
 /-- three successive single-coordinate updates (`x-h`, `x+h`, `x`), as the harness does -/
 def probe3 (w : W F) (i : Nat) (x h : F) : Except Exc (W F × W F × W F) := do
